@@ -270,7 +270,8 @@ fn ascii(s: &mut St) -> Result<(), String> {
                 s.d.pad_start = Some(pos);
                 s.d.events.push(Ev::PadStart { pos });
                 for j in pos + 1..n {
-                    if unrandomize_253(s.cw[j], j + 1) != 129 {
+                    // compare with the forward randomisation: 129 + R, minus 254 if above 254 (never 255, never 129)
+                    if s.cw[j] != randomize_253(j + 1) {
                         return Err(format!("codeword {} at {} in the pad area is not a randomised pad", s.cw[j], j));
                     }
                 }
